@@ -121,6 +121,15 @@ BUILT = {
         'to 0.05 K per shape; whole files of 1-2 species written by write_thermdat read back to the same species in order for names that may '
         'contain THERMO / END, with and without a comment block, in list / tuple / dict form. Bounded (labelled): files of 1-30 random species.',
    note=BASE_NOTE + "; number formatting/parsing axiomatised ('{: 2.8E}', '%.1f', '%d', float, int); whole-file contracts explore non-negative coefficients (all sign patterns are covered per record)"),
+ 'C16': dict(level='other', sec='4/C16',
+   text='Deductive: the objective is the ideal-gas mixture Gibbs energy sum x_i (g_i + ln(x_i p / sum x)) and _objective_jac is its exact gradient '
+        '(structural derivative, n = 2-4 symbolic species); the constraint function is x.A - feed.A with A the element matrix built by __init__ '
+        '(incl. single-element networks) and its Jacobian A^T; get_net_comp passes the Gibbs energies at T, the pressure in bar, positive lower '
+        'bounds, the equality constraint and both Jacobians to the solver, returns positive amounts and mole fractions summing to one, and '
+        'warns exactly when the solver reports failure. Bounded (labelled): atom conservation / non-negativity / fractions of converged results '
+        'and signalling on seeded networks. NOT decided: global optimality, reaction equilibrium and order independence (assumed SLSQP contract; '
+        'the bounded run measures how often it is not met).',
+   note=BASE_NOTE + '; scipy.optimize.minimize (SLSQP) returns an arbitrary result respecting its bounds; nothing about optimality is proved'),
 }
 REASON_PENDING = 'check not built yet (build phase in progress; see DESIGN.md section 10)'
 checks = []
